@@ -154,7 +154,7 @@ pub(crate) struct SyncAssetTransfer {
     pending: PendingDownloads,
     max_transfer: usize,
     #[cfg(feature = "verif_hooks")]
-    verif_dropped: Arc<Mutex<Vec<(u8, Uuid)>>>,
+    verif_arrivals: Arc<Mutex<Vec<(u8, Uuid, u64, bool)>>>,
 }
 
 impl SyncAssetTransfer {
@@ -191,7 +191,7 @@ impl SyncAssetTransfer {
             audios_to_apply,
             pending,
             #[cfg(feature = "verif_hooks")]
-            verif_dropped: Arc::new(Mutex::new(Vec::new())),
+            verif_arrivals: Arc::new(Mutex::new(Vec::new())),
         };
 
         let (server_tx, server_rx) = channel::<Request>();
@@ -238,7 +238,7 @@ impl SyncAssetTransfer {
         }
         let pending = self.pending.clone();
         #[cfg(feature = "verif_hooks")]
-        let verif_dropped = self.verif_dropped.clone();
+        let verif_arrivals = self.verif_arrivals.clone();
         self.download_pool.execute(move || {
             if let Ok(response) = ureq::get(url.as_str()).call() {
                 let len = response
@@ -269,9 +269,10 @@ impl SyncAssetTransfer {
                         })
                         .unwrap_or(false);
                     #[cfg(feature = "verif_hooks")]
-                    if outdated {
-                        verif_dropped.lock().unwrap().push(key);
-                    }
+                    verif_arrivals
+                        .lock()
+                        .unwrap()
+                        .push((key.0, key.1, request_number, outdated));
                     match asset_type {
                         _ if outdated => debug!("Dropping outdated download of {}", id),
                         SyncAssetType::Mesh => {
@@ -580,7 +581,7 @@ impl SyncAssetTransfer {
                 v.sort();
                 v
             },
-            dropped: self.verif_dropped.lock().unwrap().clone(),
+            arrivals: self.verif_arrivals.lock().unwrap().clone(),
         }
     }
 
